@@ -110,8 +110,12 @@ impl BuildOptimiser {
     pub fn build(&self) -> MCOptimiser {
         let kt_ratio = match (self.kt_ratio, self.kt_finish) {
             (Some(ratio), _) => 1. - ratio,
-            (None, Some(finish)) => f64::powf(finish / self.kt_start, 1. / self.steps as f64),
-            (None, None) => 0.1,
+            // A temperature of zero has nothing to cool towards, the ratio of the temperatures
+            // is not a number which would otherwise make the temperature not a number.
+            (None, Some(finish)) if self.kt_start > 0. => {
+                f64::powf(finish / self.kt_start, 1. / self.steps as f64)
+            }
+            (None, _) => 0.1,
         };
         debug!("Setting kt_ratio to: {}", kt_ratio);
         let seed = match self.seed {
